@@ -24,7 +24,8 @@ COMMENT_LINES = ['# comment', '-- comment', '* Gradient 1, 99, commented-out par
 
 
 def full_inputs(tier):
-    fams = [('elec-bicycle', F.base(3, 1, 2, 1, (4, 2, 2))), ('dh-standard', F.base(2, 2, 7, 4, (4, 2, 1))), ('cogen-fcr', F.base(1, 41, 4, 3, (4, 2, 3)))]
+    fams = [('elec-bicycle', F.base(3, 1, 2, 1, (4, 2, 2))), ('dh-standard', F.base(2, 2, 7, 4, (4, 2, 1))), ('cogen-fcr', F.base(1, 41, 4, 3, (4, 2, 3))),
+            ('sbt-eavorloop', F.sbt_base(2, 31, 1, (4, 2, 2), 5))]     # closed loop: 'Is AGS' / Reservoir Model 8 select the module classes while reading
     if tier == 'thorough':
         fams += [('chiller', F.base(2, 2, 5, 2, (4, 2, 1))), ('topping', F.base(3, 32, 1, 4, (5, 3, 2)))]
     out = []
